@@ -31,7 +31,7 @@ ObsOK(e, r) ==
        /\ e.obs.val.pt = e.val.pt
        /\ e.obs.val.nan = e.val.nan
        /\ ~e.val.nan => (e.obs.val.re = e.val.re /\ e.obs.val.im = e.val.im /\ e.obs.val.s = e.val.s)
-       /\ e.obs.like_ty = TypeOfLike(nodes, r.like)
+       /\ e.obs.like_ty \in LikeTys(nodes, r.like)
   /\ r.kind \notin {"symbol", "constant"} => e.obs.ops = r.ops
 
 \* nodes[i] here is the spec's record of the request that first returned object i
